@@ -381,3 +381,36 @@ def units_consistency(env):
                 bad.append("%s: %s vs %s" % (var, us[0], u))
     env.holds(",".join(ALL_PROPS), "every variable name carries units of one dimension wherever a component declares it", not bad, "; ".join(bad[:5]), static=False)
     env.holds("C20", "the units scan saw the models' variables", len(acc) > 100, "%d names" % len(acc))
+
+
+@job("c20.group_key_warnings", ("C20",))
+def group_key_warnings(env):
+    """an unknown key in the dictionary the USER hands to a public geometry group (single-surface Geometry, AerostructGeometry,
+    multi-section MultiSecGeometry) is named in a warning at set-up - for the user's own dictionary, not only for dictionaries
+    the group derives from it"""
+    import openmdao.api as om
+    from openaerostruct.geometry.geometry_group import Geometry, MultiSecGeometry
+    from openaerostruct.integration.aerostruct_groups import AerostructGeometry
+    multi = dict(name="surface", is_multi_section=True, num_sections=2, sec_name=["a", "b"], symmetry=True, S_ref_type="wetted",
+                 taper=[1.0, 1.0], span=[1.0, 1.0], sweep=[0.0, 0.0], chord_cp=[np.ones(1), np.ones(1)], twist_cp=[np.zeros(2), np.zeros(2)],
+                 root_chord=1.0, meshes="gen-meshes", nx=2, ny=[3, 3], CL0=0.0, CD0=0.0, with_viscous=False, with_wave=False, groundplane=False)
+    cases = [("Geometry", lambda d: Geometry(surface=d), lambda: surface(name="wing", nx=2, ny=3)),
+             ("AerostructGeometry", lambda d: AerostructGeometry(surface=d), lambda: surface(name="wing", nx=2, ny=3, model="tube")),
+             ("MultiSecGeometry", lambda d: MultiSecGeometry(surface=d), lambda: copy.deepcopy(multi))]
+    for label, mk, base in cases:
+        for extra in ({}, {"twsit_cp": np.zeros(2)}, {"sweeep": 1.0, "spam": 2}):
+            d = base()
+            d.update(extra)
+            with warnings.catch_warnings(record=True) as w:
+                warnings.simplefilter("always")
+                p = om.Problem(reports=False)
+                p.model.add_subsystem("g", mk(d))
+                try:
+                    p.setup()
+                    err = None
+                except Exception as e:
+                    err = "%s: %s" % (type(e).__name__, str(e)[:80])
+            msgs = [str(x.message) for x in w]
+            named = [k for k in extra if any("`%s`" % k in m for m in msgs)]
+            env.holds("C20", "%s: set-up names every unknown key of the user's dictionary in a warning %s" % (label, sorted(extra)),
+                      err is None and len(named) == len(extra), "set-up %s; named %s" % (err or "ok", named))
